@@ -290,6 +290,36 @@ def writer_symbols(idx, r=None):
     return out, done, call
 
 
+def ueb_aliases(fn):
+    """Names bound to self.uri_extension_data in fn (plus the attribute path itself)."""
+    al = {"self.uri_extension_data"}
+    for n in fn.cfg().nodes:
+        if n.kind == "stmt" and isinstance(n.ast, ast.Assign) and attr_path(n.ast.value) == "self.uri_extension_data":
+            al.update(t.id for t in n.ast.targets if isinstance(t, ast.Name))
+    return al
+
+
+def ueb_stores(fn):
+    """[(key, value expr, node)] for UEB[key] = value stores in fn."""
+    al = ueb_aliases(fn)
+    out = []
+    for n in fn.cfg().nodes:
+        if n.kind == "stmt" and isinstance(n.ast, ast.Assign):
+            for t in n.ast.targets:
+                if isinstance(t, ast.Subscript) and attr_path(t.value) in al and isinstance(t.slice, ast.Constant):
+                    out.append((t.slice.value, n.ast.value, n))
+    return out
+
+
+def writer_seg_attr(idx):
+    """SEG on the writer: the attribute stored under UEB key 'segment_size'."""
+    w = idx.func(ENC + "._got_all_encoding_parameters")
+    vals = [attr_path(v) for (k, v, n) in ueb_stores(w) if k == "segment_size"]
+    if len(vals) != 1 or not vals[0] or not vals[0].startswith("self."):
+        raise AnchorVanished("Encoder._got_all_encoding_parameters no longer stores UEB['segment_size'] from an attribute")
+    return vals[0]
+
+
 def run_formulas(ctx, r):
     idx = ctx.idx
     wmap, done, capcall = writer_symbols(idx, r)
@@ -297,20 +327,7 @@ def run_formulas(ctx, r):
     inv = {v: k for k, v in wmap.items()}
     w = idx.func(ENC + "._got_all_encoding_parameters")
     ws = Sym(idx, w, expand_attrs=False)
-    # SEG on the writer: the value stored under UEB key 'segment_size'
-    seg_attr = None
-    ueb_alias = {"self.uri_extension_data"}
-    for n in w.cfg().nodes:
-        if n.kind == "stmt" and isinstance(n.ast, ast.Assign) and attr_path(n.ast.value) == "self.uri_extension_data":
-            ueb_alias.update(t.id for t in n.ast.targets if isinstance(t, ast.Name))
-    for n in w.cfg().nodes:
-        if n.kind == "stmt" and isinstance(n.ast, ast.Assign):
-            for t in n.ast.targets:
-                if isinstance(t, ast.Subscript) and attr_path(t.value) in ueb_alias \
-                        and isinstance(t.slice, ast.Constant) and t.slice.value == "segment_size":
-                    seg_attr = attr_path(n.ast.value)
-    if not seg_attr or not seg_attr.startswith("self."):
-        raise AnchorVanished("Encoder._got_all_encoding_parameters no longer stores UEB['segment_size'] from an attribute")
+    seg_attr = writer_seg_attr(idx)
     wmap = dict(wmap)
     wmap[seg_attr] = "SEG"
     K_attr, SIZE_attr = inv["K"], inv["SIZE"]
@@ -410,9 +427,499 @@ def run_formulas(ctx, r):
     return wmap, rmap
 
 
+def run_segsize(ctx, r):
+    idx = ctx.idx
+    g = idx.func("immutable.upload:BaseUploadable.get_all_encoding_parameters")
+    inner = [f for f in g.nested.values() if any(isinstance(n, ast.Return) and n.value is not None for n in func_own_nodes(f))]
+    tuples = []
+    for f in inner:
+        s = Sym(idx, f)
+        for n in f.cfg().find(is_return):
+            v = s.expand(n, n.ast.value)
+            if isinstance(v, ast.Tuple) and len(v.elts) == 4:
+                tuples.append((f, n, v))
+    if len(tuples) != 1:
+        raise AnchorVanished("BaseUploadable.get_all_encoding_parameters: the callback returning the (k, happy, n, segsize) "
+                             "tuple was not found")
+    f, n, v = tuples[0]
+    r.site(f, n.ast, "segsize = %s" % nf(v.elts[3]))
+    seg = v.elts[3]
+    ok = isinstance(seg, ast.Call) and isinstance(seg.func, ast.Name) and seg.func.id == "next_multiple" \
+        and len(seg.args) == 2 and nf(seg.args[1]) == nf(v.elts[0])
+    r.require(ok, f, f.loc(n.ast), "segment size %s is not next_multiple(.., %s): the encoder requires a multiple of k"
+              % (nf(seg), nf(v.elts[0])))
+    # the encoder side: positions 0 and 3
+    wmap, _done, _c = writer_symbols(idx)
+    inv = {b: a for a, b in wmap.items()}
+    w = idx.func(ENC + "._got_all_encoding_parameters")
+    ws = Sym(idx, w, expand_attrs=True)
+    p0 = first_positional_params(w)[0]
+    wanted = {inv["K"]: 0, inv["N"]: 2}
+    for path, pos in sorted(wanted.items()):
+        node, val = attr_store_value(ws, path)
+        got = nf(ws.expand(node, val))
+        r.require(got == "%s[%d]" % (p0, pos), w, w.loc(node.ast), "%s is taken from %s, not from position %d of the "
+                  "encoding-parameter tuple" % (path, got, pos))
+    # segment size: the attribute stored in the UEB must be position 3
+    segpaths = [p for p, (nd, val) in ws.attr_stores().items() if nf(ws.expand(nd, val)) == "%s[3]" % p0]
+    r.site(w, None, "encoder unpack: k=[0], n=[2], segment size=[3] -> %s" % segpaths)
+    r.require(segpaths == [writer_seg_attr(idx)], w, w.loc(), "the attribute written to UEB['segment_size'] (%s) is not "
+              "the one set from position 3 (segment size) of the tuple (%s)" % (writer_seg_attr(idx), segpaths))
+
+
+# ------------------------------------------------------------ share layout
+def _const_key(e):
+    if isinstance(e, ast.Subscript) and isinstance(e.slice, ast.Constant) and isinstance(e.slice.value, str):
+        return e.slice.value
+    return None
+
+
+def writer_layout(idx, clsq):
+    """Facts of one header writer, all obtained by folding / symbolic walk."""
+    ci = idx.cls(clsq)
+    fn = ci.lookup("_create_offsets")
+    if fn is None or fn.cls is not ci:
+        raise AnchorVanished("%s._create_offsets" % clsq)
+    folder = get_folder(idx)
+    pack = the_call(fn, "pack")
+    try:
+        fmt = folder.fold(pack.args[0], fn.module, ci)
+    except NotConstant as e:
+        raise AnalysisError("%s: header format is not a constant (%s)" % (short(fn), e))
+    if isinstance(fmt, bytes):
+        fmt = fmt.decode()
+    prefix = fmt[0] if fmt and fmt[0] in "@=<>!" else ""
+    codes = [c for (c, _n) in struct_fields(fmt)]
+    args = list(pack.args[1:])
+    if len(codes) != len(args) or len(args) < 4:
+        raise AnalysisError("%s: %d header values for format %r" % (short(fn), len(args), fmt))
+    try:
+        version = folder.fold(args[0], fn.module, ci)
+    except NotConstant:
+        version = None
+    names = [_const_key(a) for a in args[3:]]
+    tables = {attr_path(a.value) for a in args[3:] if isinstance(a, ast.Subscript)}
+    L = {"cls": ci, "fn": fn, "pack": pack, "fmt": fmt, "version": version, "names": names,
+         "codes": codes, "prefix": prefix, "tables": tables,
+         "table_start": _struct.calcsize(prefix + "".join(codes[:3])),
+         "header": _struct.calcsize(fmt),
+         "width": _struct.calcsize(prefix + codes[3]),
+         "sizeargs": [attr_path(a) for a in args[1:3]]}
+    # symbolic walk of the running offset
+    cfg = fn.cfg()
+    nrm = Normaliser(Env(None, depth=0))
+    table_names = set(tables)
+    store_nodes = {}
+    var = set()
+    for n in cfg.nodes:
+        if n.kind == "stmt" and isinstance(n.ast, ast.Assign):
+            for t in n.ast.targets:
+                k = _const_key(t)
+                if k is not None and attr_path(t.value) in table_names and isinstance(n.ast.value, ast.Name):
+                    store_nodes[n.id] = k
+                    var.add(n.ast.value.id)
+    if len(var) != 1:
+        raise AnchorVanished("%s: offsets are not stored from one running variable" % short(fn))
+    x = var.pop()
+    offs = {}
+
+    def transfer(n, lab, nxt, st):
+        if lab == "exc" or nxt.kind == "raise":
+            return None
+        if n.id in store_nodes and st != "?":
+            offs.setdefault(store_nodes[n.id], set()).add(st)
+        if n.kind == "stmt" and isinstance(n.ast, ast.Assign) and any(isinstance(t, ast.Name) and t.id == x for t in n.ast.targets):
+            return nrm.poly(n.ast.value)
+        if n.kind == "stmt" and isinstance(n.ast, ast.AugAssign) and isinstance(n.ast.target, ast.Name) and n.ast.target.id == x:
+            if st == "?":
+                return st
+            if isinstance(n.ast.op, ast.Add):
+                return st + nrm.poly(n.ast.value)
+            if isinstance(n.ast.op, ast.Sub):
+                return st - nrm.poly(n.ast.value)
+            raise AnalysisError("%s: unsupported update of %s" % (short(fn), x))
+        return st
+    visited, _p = explore(cfg, "?", transfer)
+    L["states"] = len(visited)
+    L["offsets"] = offs
+    return L
+
+
+def reader_tables(idx, fn, name_targets):
+    """Per version branch of an offset-table reader: {version: {target: const}} for the
+    stores to the given names / attribute paths; plus the ordered list of offset names."""
+    cfg = fn.cfg()
+    fnorm = FlowNorm(fn)
+    folder = get_folder(idx)
+    vers = {}
+
+    def version_of(n, lab):
+        f = fnorm.edge_fact(n, lab)
+        if not f or f[0] not in ("==", "!="):
+            return None
+        for a, b in ((f[1], f[2]), (f[2], f[1])):
+            if a in ("1", "2") and re.search(r"unpack\(", b or ""):
+                return (f[0], int(a))
+        return None
+
+    def transfer(n, lab, nxt, st):
+        if lab == "exc" or nxt.kind == "raise":
+            return None
+        v = version_of(n, lab)
+        if v is not None:
+            if v[0] == "==":
+                if st not in (0, v[1]) and not isinstance(st, tuple):
+                    return None
+                st = v[1]
+            elif st == v[1]:
+                return None
+            elif st == 0:
+                st = ("not", v[1])
+            elif isinstance(st, tuple) and st[1] != v[1]:
+                st = ("not", 0)
+        if n.kind == "stmt" and isinstance(n.ast, ast.Assign) and st != 0:
+            for t in n.ast.targets:
+                p = attr_path(t)
+                if p in name_targets:
+                    try:
+                        val = folder.fold(n.ast.value, fn.module, fn.cls)
+                    except NotConstant:
+                        val = None
+                    vers.setdefault(st, {}).setdefault(p, set()).add(val)
+        return st
+    visited, _p = explore(cfg, 0, transfer)
+    # ordered offset names: a for loop over a literal sequence of strings whose body stores into a dict by the loop variable
+    names = None
+    for n in cfg.nodes:
+        if n.kind != "iter":
+            continue
+        it = n.ast.iter
+        if isinstance(it, ast.Call) and call_tail(it) == "enumerate" and it.args:
+            it = it.args[0]
+        if isinstance(it, (ast.List, ast.Tuple)) and it.elts and all(isinstance(e, ast.Constant) and isinstance(e.value, str) for e in it.elts):
+            names = [e.value for e in it.elts]
+            loop = n
+    if names is None:
+        raise AnchorVanished("%s: the loop over the offset names was not found" % short(fn))
+    return vers, names, loop, len(visited)
+
+
+def run_layout_table(ctx, r):
+    idx = ctx.idx
+    writers = {}
+    for clsq in (WBP, WBP2):
+        L = writer_layout(idx, clsq)
+        fn = L["fn"]
+        r.site(fn, L["pack"], "v%s fmt=%s table@0x%x header=0x%x names=%s" % (
+            L["version"], L["fmt"], L["table_start"], L["header"], ",".join(map(str, L["names"]))))
+        r.count(L["states"])
+        r.require(L["version"] in (1, 2) and L["version"] not in writers, fn, fn.loc(L["pack"]),
+                  "header version is %r" % (L["version"],))
+        writers[L["version"]] = L
+        r.require(None not in L["names"] and len(L["tables"]) == 1, fn, fn.loc(L["pack"]),
+                  "offset-table values are not all entries of one offsets dict")
+        r.require(len(set(L["codes"][3:])) == 1, fn, fn.loc(L["pack"]), "offset fields have mixed widths: %s" % L["fmt"])
+        r.require(L["prefix"] == ">", fn, fn.loc(L["pack"]), "header is not big-endian standard layout: %r" % L["fmt"])
+        r.require(L["codes"][0] == "L", fn, fn.loc(L["pack"]), "version field is not a 4-byte big-endian integer: %r" % L["fmt"])
+        # start of data == size of the header that put_header writes
+        d0 = L["offsets"].get(L["names"][0] if L["names"] else None, set())
+        r.require(len(d0) == 1 and next(iter(d0)).const_value() == L["header"], fn, fn.loc(),
+                  "first region starts at %s but the packed header is 0x%x bytes" % (", ".join(map(str, d0)), L["header"]))
+        # class constants used for the UEB length prefix
+        folder = get_folder(idx)
+        try:
+            fs, fst = folder.class_attr(L["cls"], "fieldsize"), folder.class_attr(L["cls"], "fieldstruct")
+        except NotConstant as e:
+            raise AnchorVanished("%s.fieldsize/fieldstruct: %s" % (clsq, e))
+        r.require(fst == ">" + L["codes"][3] and fs == L["width"] == _struct.calcsize(fst), fn, fn.loc(),
+                  "%s: fieldsize=%r fieldstruct=%r do not match the offset field %r of the header" % (
+                      L["cls"].name, fs, fst, L["codes"][3]))
+    if set(writers) != {1, 2}:
+        raise AnchorVanished("header writers for versions 1 and 2 not both found")
+    r.require(writers[1]["names"] == writers[2]["names"], writers[2]["fn"], writers[2]["fn"].loc(writers[2]["pack"]),
+              "v1 and v2 headers list the offsets in different orders")
+
+    def compare(fn, vers, names, loop, keys, what):
+        """keys: (start target, size target, struct target)"""
+        for v in (1, 2):
+            W = writers[v]
+            cands = [k for k in vers if k == v or (v == 2 and k == ("not", 1)) or (v == 1 and k == ("not", 2))]
+            if not cands:
+                raise AnchorVanished("%s: no branch for share version %d" % (short(fn), v))
+            t = vers[cands[0]]
+            r.site(fn, loop.ast, "%s v%d: %s" % (what, v, {k: sorted(map(repr, x)) for k, x in sorted(t.items())}))
+            r.count(1)
+            st, sz, sc = (t.get(k, set()) for k in keys)
+            r.require(st == {W["table_start"]}, fn, fn.loc(loop.ast), "%s reads the v%d offset table at %s; the writer puts "
+                      "it at 0x%x" % (what, v, sorted(map(repr, st)), W["table_start"]))
+            r.require(sz == {W["width"]}, fn, fn.loc(loop.ast), "%s uses field size %s for v%d; the writer packs %d-byte "
+                      "fields" % (what, sorted(map(repr, sz)), v, W["width"]))
+            codes = {(c or "").lstrip("><=!@") if isinstance(c, str) else c for c in sc}
+            r.require(codes == {W["codes"][3]}, fn, fn.loc(loop.ast), "%s unpacks v%d fields as %s; the writer packs %r" % (
+                what, v, sorted(map(repr, sc)), W["codes"][3]))
+            r.require(names == W["names"], fn, fn.loc(loop.ast), "%s assigns the table to %s; the v%d writer packs %s" % (
+                what, names, v, W["names"]))
+
+    # reader 1: the downloader
+    so = idx.func(SHARE + "._satisfy_offsets")
+    vers, names, loop, nst = reader_tables(idx, so, {"table_start", "self._fieldsize", "self._fieldstruct"})
+    r.count(nst)
+    compare(so, vers, names, loop, ("table_start", "self._fieldsize", "self._fieldstruct"), "Share._satisfy_offsets")
+    # the table is unpacked as len(names) big-endian fields of that code and popped with len(names) * fieldsize
+    nrm = N(so)
+    up = [c for c in calls_in_func(so, "unpack") if len(c.args) == 2 and "self._fieldstruct" in nrm.norm(c.args[0])]
+    if len(up) != 1:
+        raise AnchorVanished("_satisfy_offsets: unpack of the offset table not found")
+    for code in ("L", "Q"):
+        class T(ast.NodeTransformer):
+            def visit_Attribute(self, e):
+                if attr_path(e) == "self._fieldstruct":
+                    return ast.Constant(value=code)
+                return self.generic_visit(e)
+        e = Sym(idx, so).expand(node_of(so, up[0]), up[0].args[0])
+        try:
+            f = get_folder(idx).fold(T().visit(e), so.module, so.cls)
+        except NotConstant as ex:
+            raise AnalysisError("_satisfy_offsets: table format not foldable: %s" % ex)
+        r.require(f == ">" + code * len(names), so, so.loc(up[0]), "offset table is unpacked with %r for %d names" % (f, len(names)))
+    size_e = nf(Sym(idx, so).expand(node_of(so, up[0]), ast.Name(id="offset_table_size", ctx=ast.Load()))) \
+        if "offset_table_size" in {x.id for x in func_own_nodes(so) if isinstance(x, ast.Name)} else None
+    pops = [c for c in calls_in_func(so, "pop") if len(c.args) == 2]
+    for c in pops:
+        n = node_of(so, c)
+        s = Sym(idx, so)
+        a0, a1 = nf(s.expand(n, c.args[0])), N(so).poly(s.expand(n, c.args[1]))
+        r.require(a1 == Poly.atom("self._fieldsize") * Poly.const(len(names)), so, so.loc(c),
+                  "the offset table is read as %s bytes, not %d fields" % (a1, len(names)))
+    if not pops:
+        raise AnchorVanished("_satisfy_offsets: read of the offset table not found")
+
+    # reader 2: ReadBucketProxy (checker / helper path)
+    po = idx.func(RBP + "._parse_offsets")
+    vers, names, loop, nst = reader_tables(idx, po, {"x", "fieldsize", "fieldstruct"})
+    r.count(nst)
+    compare(po, vers, names, loop, ("x", "fieldsize", "fieldstruct"), "ReadBucketProxy._parse_offsets")
+
+
+# ------------------------------------------------------- region contiguity
+def put_methods(idx, ci):
+    """For each method of the writer class that calls self._queue_write(offset, data):
+    (method, call, region key or None, offset AST, data AST, node, Sym)."""
+    out = []
+    seen = set()
+    for c in ci.mro():
+        for name, m in c.methods.items():
+            if name in seen:
+                continue
+            seen.add(name)
+            for call in calls_in_func(m, "_queue_write"):
+                if call_name(call) != "self._queue_write" or len(call.args) != 2:
+                    continue
+                s = Sym(idx, m)
+                n = node_of(m, call)
+                off = s.expand(n, call.args[0])
+                out.append((m, call, off, s.expand(n, call.args[1]), n, s))
+    return out
+
+
+def written_length(m, s, data):
+    """Poly of the number of bytes `data` is asserted / constructed to have, or None."""
+    nrm = Normaliser(Env(None, depth=0))
+    if isinstance(data, ast.BinOp) and isinstance(data.op, ast.Mult):
+        for a, b in ((data.left, data.right), (data.right, data.left)):
+            if isinstance(a, ast.Constant) and isinstance(a.value, bytes):
+                return Poly.const(len(a.value)) * nrm.poly(b)
+    want = "len(%s)" % nf(data)
+    found = []
+    for p in m.cfg().nodes:
+        if p.kind == "test" and p.assume and isinstance(p.ast, ast.Compare) and len(p.ast.ops) == 1 \
+                and isinstance(p.ast.ops[0], ast.Eq):
+            l, r_ = s.expand(p, p.ast.left), s.expand(p, p.ast.comparators[0])
+            for a, b in ((l, r_), (r_, l)):
+                if nf(a) == want:
+                    found.append(nrm.poly(b))
+    if len(found) == 1:
+        return found[0]
+    return None
+
+
+def encoder_put_order(idx):
+    """Ordered list of (registration call, [put_* tails reached]) on the Deferred chain of Encoder.start."""
+    st = idx.func(ENC + ".start")
+    enc = idx.cls(ENC)
+
+    def self_calls(fn):
+        out = []
+        for c in calls_in_func(fn, None, into_lambda=True):
+            nm = call_name(c)
+            if nm.startswith("self.") and nm.count(".") == 1:
+                out.append(nm.split(".")[1])
+        for sub in fn.nested.values():
+            out.extend(self_calls(sub))
+        return out
+
+    def puts_of(fn):
+        out = [call_tail(c) for c in calls_in_func(fn, None, into_lambda=True) if call_tail(c).startswith("put_")]
+        for sub in fn.nested.values():
+            out.extend(puts_of(sub))
+        return out
+
+    def reach(name, seen):
+        m = enc.lookup(name)
+        if m is None or name in seen:
+            return []
+        seen.add(name)
+        res = list(puts_of(m))
+        for nm in self_calls(m):
+            res.extend(reach(nm, seen))
+        return res
+    order = []
+    for reg in registrations(st):
+        t = reg.target
+        names = []
+        if isinstance(t, ast.Lambda):
+            for c in own_nodes(t.body, into_lambda=True):
+                if isinstance(c, ast.Call) and call_name(c).startswith("self."):
+                    names.append(call_name(c).split(".")[1])
+        elif isinstance(t, ast.Attribute) and attr_path(t) and attr_path(t).startswith("self."):
+            names.append(t.attr)
+        puts = []
+        for nm in names:
+            puts.extend(reach(nm, set()))
+        if puts:
+            order.append((reg, sorted(set(puts))))
+    return st, order
+
+
+def run_contiguity(ctx, r):
+    idx = ctx.idx
+    nrm = Normaliser(Env(None, depth=0))
+    region_of_put = {}
+    for clsq in (WBP, WBP2):
+        L = writer_layout(idx, clsq)
+        ci, names, offs = L["cls"], L["names"], L["offsets"]
+        for k in names:
+            if len(offs.get(k, ())) != 1:
+                raise AnalysisError("%s: offset of %r is not a single symbolic value: %s" % (clsq, k, offs.get(k)))
+        off = {k: next(iter(offs[k])) for k in names}
+        table = next(iter(L["tables"]))
+        puts = put_methods(idx, ci)
+        if len(puts) < 6:
+            raise AnchorVanished("%s: fewer than 6 _queue_write sites" % clsq)
+        covered = {}
+        for (m, call, o, data, n, s) in puts:
+            key = _const_key(o) if attr_path(getattr(o, "value", None)) in ("self._offsets",) else None
+            if key is None:
+                if isinstance(o, ast.Constant) and o.value == 0:
+                    # the header itself: self._offset_data of len == header (asserted in _create_offsets)
+                    covered.setdefault("<header>", []).append((m, call))
+                    region_of_put.setdefault(m.name, set()).add(-1)
+                elif isinstance(o, ast.BinOp):
+                    covered.setdefault("<block>", []).append((m, call, o))
+                    covered.setdefault(names[0], []).append((m, call))
+                    region_of_put.setdefault(m.name, set()).add(0)
+                else:
+                    r.violation(m, m.loc(call), "%s writes at %s, not at an entry of the offset table" % (m.name, nf(o)))
+                continue
+            if key not in names:
+                r.violation(m, m.loc(call), "%s writes at offsets[%r], which is not in the header" % (m.name, key))
+                continue
+            region_of_put.setdefault(m.name, set()).add(names.index(key))
+            ln = written_length(m, s, data)
+            i = names.index(key)
+            if clsq == WBP:
+                r.site(m, call, "region %s length %s" % (key, ln))
+            r.count(1)
+            if i + 1 < len(names):
+                gap = off[names[i + 1]] - off[key]
+                r.require(ln is not None and gap == ln, L["fn"], L["fn"].loc(), "%s: region %r is %s bytes long in "
+                          "%s but %s writes %s bytes there (writes must be contiguous)" % (
+                              ci.name, key, gap, short(L["fn"]), m.name, ln if ln is not None else "an unchecked number of"))
+            else:
+                # last region: <length field><data>; allocated size = offsets[last] + fieldsize + len(data)
+                ok = isinstance(data, ast.BinOp) and isinstance(data.op, ast.Add) and isinstance(data.left, ast.Call) \
+                    and call_tail(data.left) == "pack" and nf(data.left.args[0]) == "self.fieldstruct" \
+                    and nf(data.left.args[1]) == "len(%s)" % nf(data.right)
+                r.require(ok, m, m.loc(call), "%s does not write <length packed with self.fieldstruct><data>: %s" % (m.name, nf(data)))
+                ln2 = written_length(m, s, data.right) if ok else None
+                ga = ci.lookup("get_allocated_size")
+                if ga is None:
+                    raise AnchorVanished("%s.get_allocated_size" % clsq)
+                rets = ga.cfg().find(is_return)
+                tot = nrm.poly(Sym(idx, ga).expand(rets[0], rets[0].ast.value)) if len(rets) == 1 else None
+                want = Poly.atom("self._offsets[%r]" % key) + Poly.atom("self.fieldsize") + (ln2 if ln2 is not None else Poly.atom("?"))
+                r.require(tot == want, ga, ga.loc(), "allocated share size %s is not offsets[%r] + fieldsize + %s" % (tot, key, ln2))
+            covered.setdefault(key, []).append((m, call))
+        for k in names:
+            r.require(k in covered, L["fn"], L["fn"].loc(), "%s: no put_* method writes region %r (the share would have a hole; "
+                      "writes must be appended)" % (ci.name, k))
+        # a put method that chains to another writer method covers that region too
+        for c in ci.mro():
+            for name, m in c.methods.items():
+                for cl in calls_in_func(m, None, into_lambda=True):
+                    nm = call_name(cl)
+                    if nm.startswith("self.") and nm.split(".", 1)[1] in region_of_put and nm.split(".", 1)[1] != "_queue_write" \
+                            and name != nm.split(".", 1)[1]:
+                        region_of_put.setdefault(name, set()).update(region_of_put[nm.split(".", 1)[1]])
+        # data region: data_size parameter; put_block addresses blocks at offsets['data'] + segnum * block_size
+        fnp = first_positional_params(L["fn"])
+        gap = off[names[1]] - off[names[0]]
+        r.require(len(fnp) == 2 and gap == Poly.atom(fnp[1]) and L["sizeargs"] == fnp, L["fn"], L["fn"].loc(),
+                  "%s: the data region is %s bytes, header size fields are %s (parameters %s)" % (ci.name, gap, L["sizeargs"], fnp))
+        for (m, call, o) in covered.get("<block>", []):
+            ps = first_positional_params(m)
+            want = Poly.atom("self._offsets[%r]" % names[0]) + Poly.atom(ps[0]) * Poly.atom("self._block_size")
+            if clsq == WBP:
+                r.site(m, call, "block address %s" % nrm.poly(o))
+            r.require(nrm.poly(o) == want, m, m.loc(call), "block %s is written at %s, not at offsets[%r] + %s * block_size" % (
+                ps[0], nrm.poly(o), names[0], ps[0]))
+        if not covered.get("<block>") or not covered.get("<header>"):
+            raise AnchorVanished("%s: put_block / put_header write not found" % clsq)
+        # _create_offsets(block_size, data_size) is called with the constructor's parameters, stored as _block_size
+        init = ci.lookup("__init__")
+        cc = the_call(init, "_create_offsets")
+        b = bind_call_args(L["fn"], cc)
+        si = Sym(idx, init, expand_attrs=True)
+        nb, vb = attr_store_value(si, "self._block_size")
+        r.require(nf(b[fnp[0]]) == nf(vb) and isinstance(vb, ast.Name), init, init.loc(cc),
+                  "header block size %s differs from the block size %s used to address blocks" % (nf(b[fnp[0]]), nf(vb)))
+    # order in which the encoder sends regions
+    st, order = encoder_put_order(idx)
+    seq = []
+    for reg, puts in order:
+        idxs = sorted({i for p_ in puts for i in region_of_put.get(p_, ())})
+        unknown = [p_ for p_ in puts if p_ not in region_of_put]
+        if unknown:
+            r.violation(st, st.loc(reg.call), "encoder calls %s which writes no known region" % unknown)
+        seq.append((reg, puts, idxs))
+    r.site(st, None, "send order: " + " < ".join("+".join(p_) for _g, p_, _i in seq))
+    flat = [i for _g, _p, ii in seq for i in ii]
+    last = -2
+    for reg, puts, idxs in seq:
+        if idxs:
+            r.require(idxs[0] >= last, st, st.loc(reg.call), "%s is sent after a later region of the share (regions must be "
+                      "appended in layout order)" % "+".join(puts))
+            last = max(last, idxs[-1])
+    r.require(set(flat) >= set(range(-1, 6)), st, st.loc(), "the encoder does not send every region of the share: %s" % sorted(set(flat)))
+
+
+# ====================================================================== driver
 def run(ctx: Context):
     idx = ctx.idx
     with ctx.rule("C01.1", "R6", "encoder (_got_all_encoding_parameters + CRSEncoder.set_params) and downloader "
                   "(_calculate_sizes) size formulas have equal normal forms under the verify-cap symbol map",
                   expected=7) as r:
         run_formulas(ctx, r)
+
+    with ctx.rule("C01.2", "R6", "the uploadable rounds the segment size up to a multiple of the k it announces; the "
+                  "encoder takes k and the segment size from the same tuple positions", expected=2) as r:
+        run_segsize(ctx, r)
+
+    with ctx.rule("C01.3", "R5", "share header: WriteBucketProxy/_v2._create_offsets and the readers "
+                  "Share._satisfy_offsets / ReadBucketProxy._parse_offsets agree on version, field code and width, "
+                  "table start, header size and the order of the six offset names", expected=6) as r:
+        run_layout_table(ctx, r)
+
+    with ctx.rule("C01.4", "R5/R6", "share regions are contiguous: offsets[next] - offsets[this] equals the length the "
+                  "put_* method of the region asserts; the encoder sends the regions in layout order", expected=13) as r:
+        run_contiguity(ctx, r)
